@@ -3,12 +3,14 @@
    Proved (all inputs): the Empty/Whole rows, and the composition rules as the model computes
    them: a Connected container contains X iff all its boundaries' simple shapes do; a Disjoint
    container contains a connected X iff some component does, a Disjoint X iff it contains every
-   component of X.  NOT proved (partial): that the simple-in-simple test (area/orientation case
-   analysis + curve-in-shape sampling at vertices and at the midpoints of all pieces between
-   crossings) decides subset -- oracle on every run (exact subset decision by slab sampling).
+   component of X; and SOUNDNESS of the curve-in-shape test for polygons in general position
+   (C03_curve_in_shape_sound).  NOT proved (partial): completeness of that test, and that the
+   area/orientation case analysis of simple-in-simple on top of it decides subset -- oracle on
+   every run (exact subset decision by slab sampling).
    Two defects in exactly that part were found and repaired (known_findings.json: F10, F11). *)
 From Coq Require Import List.
-From SV Require Import Spec.Spec Lemmas.Logic.
+From SV Require Import Spec.Spec Lemmas.Logic Lemmas.Lines Lemmas.Subset.
+Open Scope Q_scope.
 
 Theorem C03_whole_contains_all : forall b, contains_shape SWhole b = Ok true.
 Proof. exact contains_whole_l. Qed.
@@ -32,6 +34,55 @@ Theorem C03_disjoint_content : forall cs os,
   (forall o, In o os -> contains_shape (SD cs) (SC o) = Ok true).
 Proof. exact contains_SD_SD_true. Qed.
 Print Assumptions C03_disjoint_content.
+
+(* SOUNDNESS of curve-in-shape for polygons (the heart of `B in A`): if the library says the curve
+   is contained, then every point of the curve is inside or on the boundary of the shape -- for
+   straight closed boundaries in general position (every common point of a segment of J and an edge
+   of A is a transversal crossing), wherever the tolerance tests answer the exact question at the
+   points the code samples and the shape has no undefined winding numbers there.  The proof uses
+   the completeness of the crossing finder (C14) and the local constancy of the winding number
+   (C02_region_locally_constant): between consecutive crossing parameters the curve cannot change
+   region, so the sampled midpoints speak for the whole piece.  Holds for both boundary flags. *)
+Theorem C03_curve_in_shape_sound : forall self j b,
+  simple_has_jordan self j b = Ok true ->
+  all_lines self = true -> closed_chain self = true -> all_lines j = true ->
+  general_position j self ->
+  (forall p, sampled self j p -> tol_exact self p) ->
+  (forall p, sampled self j p -> region_simple self p <> RUndef) ->
+  forall s t, In s j -> 0 <= t -> t <= 1 ->
+  region_simple self (eval s t) = RIn \/ region_simple self (eval s t) = RBdry.
+Proof. exact simple_has_jordan_sound. Qed.
+Print Assumptions C03_curve_in_shape_sound.
+(* without any assumption on undefined winding numbers: no point of the curve is outside *)
+Theorem C03_curve_in_shape_not_out : forall self j b,
+  simple_has_jordan self j b = Ok true ->
+  all_lines self = true -> closed_chain self = true -> all_lines j = true ->
+  general_position j self ->
+  (forall p, sampled self j p -> tol_exact self p) ->
+  forall s t, In s j -> 0 <= t -> t <= 1 -> region_simple self (eval s t) <> ROut.
+Proof. exact simple_has_jordan_not_out. Qed.
+Print Assumptions C03_curve_in_shape_not_out.
+(* non-vacuity: all hypotheses are decidable for concrete data (Subset.simple_has_jordan_sound_checked);
+   a square inside a square, a diamond touching the four edges with its vertices, and a triangle
+   cut in the middle of an edge by the reflex vertex of an L-shaped hexagon all meet them *)
+Example C03_sound_nonvacuous_square : forall s t, In s small -> 0 <= t -> t <= 1 ->
+  region_simple big (eval s t) = RIn \/ region_simple big (eval s t) = RBdry.
+Proof. exact small_in_big. Qed.
+Example C03_sound_nonvacuous_touching : forall s t, In s diamond -> 0 <= t -> t <= 1 ->
+  region_simple big (eval s t) = RIn \/ region_simple big (eval s t) = RBdry.
+Proof. exact diamond_in_big. Qed.
+Example C03_sound_nonvacuous_cut : forall s t, In s tri -> 0 <= t -> t <= 1 ->
+  region_simple Lhex (eval s t) = RIn \/ region_simple Lhex (eval s t) = RBdry.
+Proof. exact tri_in_Lhex. Qed.
+(* lifted to any shape: if contains_jordan answers True for a Simple/Connected/Disjoint polygonal
+   shape, every point of the curve is inside-or-on every boundary the answer depended on *)
+Theorem C03_contains_curve_sound : forall S j b,
+  contains_jordan S j b = Ok true -> all_lines j = true ->
+  (forall self, In self (jordans S) -> good_pair self j) ->
+  (forall cs, S = SD cs -> forall c p, In c cs -> curve_pt j p -> region_comp c p <> RUndef) ->
+  forall p, curve_pt j p -> region S p = RIn \/ region S p = RBdry.
+Proof. exact contains_jordan_sound. Qed.
+Print Assumptions C03_contains_curve_sound.
 
 (* the witnesses of the two repaired defects now answer correctly in the model *)
 Example C03_nonvacuous_F11 :
